@@ -425,6 +425,22 @@ func main() {
 					}
 					repl("push-pd4-short", append([]byte{0x4e, byte(n), byte(n >> 8), 0, 0}, d...))
 				}
+				// declared lengths at the top of the length field's range in front of the token's data
+				{
+					d := tok[1:]
+					if tok[0] == 0x4c {
+						d = tok[2:]
+					}
+					for _, l := range []int{0xfe, 0xff} {
+						repl("push-pd1-top", append([]byte{0x4c, byte(l)}, d...))
+					}
+					for _, l := range []int{0xfffd, 0xfffe, 0xffff} {
+						repl("push-pd2-top", append([]byte{0x4d, byte(l), byte(l >> 8)}, d...))
+					}
+					for _, l := range []uint32{0xfffffffb, 0xfffffffc, 0xffffffff, 0x7fffffff, 0x80000000} {
+						repl("push-pd4-top", append([]byte{0x4e, byte(l), byte(l >> 8), byte(l >> 16), byte(l >> 24)}, d...))
+					}
+				}
 				repl("push->one-byte", []byte{0x01, tok[len(tok)-1]})
 			} else {
 				repl("op->4c00", []byte{0x4c, 0x00})
